@@ -455,6 +455,8 @@ def check(ctx: Ctx) -> None:
     check_gate(ctx)
     check_release(ctx, 'queueing.worker', 'per-object')
     check_release(ctx, 'queueing.watcher', 'per-kind')
+    from . import _extra
+    _extra.check_index_alias(ctx, 'R17.5')
 
 
 SPEC = PropSpec(
